@@ -54,7 +54,15 @@ ASSUMPTIONS = [
     "a worker's events are recognised by test ids 'w<i>.*' (id-less attachments by file names 'w<i>.*'); no attachment is "
     "called 'reason' (DESIGN 11.2: a non-text 'reason' makes StreamSummary._skip raise inside the worker)",
     "make_tests(ConcurrentTestSuite) and make_tests(the suite given to the constructor) are both accepted (the docstring "
-    "says 'a suite')",
+    "says 'a suite'); what the argument holds is read when make_tests is called (a suite may let go of its tests once run)",
+    "a broken-runner report is a 'fail' (classic: addError) event whose test id starts with 'broken-runner'; what follows in the "
+    "id is not judged.  With distinct route codes the report is attributed to a worker by the route code it arrives with",
+    "wrap_result's 'thread number': one call per worker, each with an int of its own; where the numbering starts is not judged",
+    "the second run goes through the make_tests callable the suite was constructed with (it makes one healthy worker the "
+    "second time); nothing is assigned to the suite object",
+    "Thread.start() raising before there is a thread (fault thread_start, started=False) is read as run() being aborted: the "
+    "exception has to propagate and the workers started before are told to stop.  A suite that contained such a failure "
+    "(reported it, went on) would be flagged abort:not-propagated; the statement does not say which",
 ]
 
 
@@ -397,7 +405,18 @@ def execute(spec, schedule=None):
         return {"distinct": "r%d" % i, "none": None, "shared": "r", "empty": ""}[routes]
 
     def make_tests(*a, **kw):
-        state["mt_args"].append((a, kw))
+        if state.get("second_phase"):
+            # the second run: the same callable the suite was built with now makes one healthy worker (nothing is
+            # assigned to the suite object: where it keeps its make_tests is its own business)
+            return [(state["ok_worker"], "again")] if stream else [state["ok_worker"]]
+        held = None
+        if not stream and len(a) == 1 and not kw:
+            # what the argument holds now, at the call (a suite may let go of its tests once they have run)
+            try:
+                held = [getattr(t, "id", lambda: None)() for t in _leaves(a[0])]
+            except Exception as e:
+                held = repr(e)
+        state["mt_args"].append((a, kw, held))
         return sub_suites()
 
     def sub_suites():
@@ -468,8 +487,7 @@ def execute(spec, schedule=None):
                 if spec.get("second_run") and not stream:
                     # the same suite object used again, without faults, into a fresh result
                     rec2 = Ext()
-                    ok_worker = Worker(90, {"tests": ["success", "failure"], "raise_after": None, "base": False})
-                    suite.make_tests = lambda suite_: [ok_worker]
+                    state["ok_worker"] = Worker(90, {"tests": ["success", "failure"], "raise_after": None, "base": False})
                     state["second_phase"] = True
                     try:
                         suite.run(rec2)
@@ -483,8 +501,7 @@ def execute(spec, schedule=None):
                 if spec.get("second_run") and stream:
                     # the same suite object used again, this time without any fault: a fresh, complete run
                     rec2 = streams.Recorder()
-                    ok_worker = Worker(90, {"tests": ["success", "failure"], "raise_after": None, "base": False})
-                    suite.make_tests = lambda: [(ok_worker, "again")]
+                    state["ok_worker"] = Worker(90, {"tests": ["success", "failure"], "raise_after": None, "base": False})
                     state["second_phase"] = True
                     try:
                         suite.run(rec2)
@@ -635,16 +652,11 @@ def execute(spec, schedule=None):
         # the ConcurrentTestSuite itself or that suite; (stream) with nothing
         # (how often it is called is not judged: sub-suites run twice are caught by run-once; the second run has a
         # make_tests of its own)
-        for a, kw in state["mt_args"][:1]:
+        for a, kw, held in state["mt_args"][:1]:
             if stream and (a or kw):
                 vs.append(V("make_tests", "stream-args", "ConcurrentStreamTestSuite called make_tests with %r %r" % (a, kw)))
             if not stream:
-                held = None
-                if len(a) == 1 and not kw:
-                    try:
-                        held = [getattr(t, "id", lambda: None)() for t in _leaves(a[0])]
-                    except Exception as e:
-                        held = repr(e)
+                # (held: the ids of the tests inside the argument, read when make_tests was called)
                 if held != ["c13.marker"]:
                     vs.append(V("make_tests", "classic-args", "ConcurrentTestSuite called make_tests with %r %r (tests inside: %r); expected the suite" % (a, kw, held)))
     # 3. delivery
@@ -661,7 +673,9 @@ def execute(spec, schedule=None):
                 # (events without a test id by the name of their file)
                 mine = [s for s in caller.inner.statuses() if (s["test_id"] or "").startswith("w%d." % w.wid) or
                         s["test_id"] is None and (s["file_name"] or "").startswith("w%d." % w.wid) or
-                        (s["test_id"] or "") == "broken-runner-%r" % (code,) and routes == "distinct"]
+                        # a broken-runner report, whatever follows 'broken-runner' in its id: with distinct route
+                        # codes it is this worker's when it carries this worker's route code
+                        (s["test_id"] or "").startswith("broken-runner") and routes == "distinct" and s["route_code"] == code]
                 if any(s["timestamp"] is None or s["timestamp"].tzinfo is None for s in mine):
                     vs.append(V("delivery", "no-timestamp", "an event of worker %d reached the caller without an (aware) timestamp" % w.wid))
                 for s in mine:
@@ -772,8 +786,11 @@ def execute(spec, schedule=None):
                 if e[1] == "raised" and not e[2] and "runner %d broke" % e[0] not in reports:
                     vs.append(V("broken-runner", "classic-traceback", "worker %d raised RuntimeError('runner %d broke'); no broken-runner error mentions it: %.300s" % (e[0], e[0], reports)))
                     break
-            if spec["wrap_result"] and sorted(state.get("wrapped_first", wrapped)) != list(range(len(workers))):
-                vs.append(V("wrap_result", "calls", "wrap_result called with %r" % state.get("wrapped_first", wrapped)))
+            # "a thread number": one call per worker, each with a number of its own (where the numbering starts is not said)
+            nums = state.get("wrapped_first", wrapped)
+            if spec["wrap_result"] and not (len(nums) == len(workers) and len(set(nums)) == len(nums) and
+                                            all(isinstance(x, int) and not isinstance(x, bool) for x in nums)):
+                vs.append(V("wrap_result", "calls", "wrap_result called with %r for %d workers" % (nums, len(workers))))
     if classic_result_fault and not any(v.clause == "deadlock" for v in vs):
         # the caller's result raised inside a worker's block: if that was the outcome call, the test must still be
         # closed before any other test is opened (one test at a time)
